@@ -28,3 +28,55 @@ Proof.
   revert acc. induction xs as [|x xs IH]; intros acc; cbn [fold_left]; [reflexivity|].
   rewrite combine2_gen_eq. apply IH.
 Qed.
+
+(* ---------- the module-level functions ----------
+   [combine_gen] / [unwrapped_combine_gen] are regenerated from the bodies of result.combine and
+   result.unwrapped_combine (and of the predicates is_ok / is_error / is_skip / is_unwrapped_ok they
+   call).  They are partial (None = the Python code would hold an object the model cannot represent,
+   or raise); the hand model is total.  The transcription never fails on a list of outcomes, and never
+   fails on the inputs unwrapped_combine is specified for (bare values and non-Ok outcomes), and then
+   agrees with the hand model about which the C03 theorems are proved. *)
+
+Lemma fold_opt_gen_eq (V : Type) (xs : list (outcome V)) (acc : outcome V) :
+  fold_left (fun o x => match o with Some a => Some (combine2_gen V a x) | None => None end) xs (Some acc)
+  = Some (fold_left combine2 xs acc).
+Proof.
+  revert acc. induction xs as [|x xs IH]; intros acc; cbn [fold_left]; [reflexivity|].
+  rewrite combine2_gen_eq. apply IH.
+Qed.
+
+Theorem combine_gen_eq (V : Type) (xs : list (outcome V)) : combine_gen V xs = Some (combine xs).
+Proof.
+  unfold combine_gen, combine. destruct xs as [|x xs]; [reflexivity|].
+  cbn [nonempty_list negb]. rewrite fold_opt_gen_eq. fold (reduce (x :: xs)).
+  destruct (reduce (x :: xs)) as [m l|m l|[v|vs] l|d m l|m l]; reflexivity.
+Qed.
+
+Definition uraw_b {V : Type} (u : uoutcome V) : bool :=
+  match u with UOut (Ok _ _) => false | _ => true end.
+
+Lemma fold_opt_ugen_eq (V : Type) (us : list (uoutcome V)) (acc : outcome V) :
+  forallb uraw_b us = true ->
+  fold_left (fun o u => match o with
+                        | Some a => match (if is_unwrapped_ok_u V u then wrap_val V u else as_outcome V u) with
+                                    | Some t => Some (combine2_gen V a t)
+                                    | None => None
+                                    end
+                        | None => None
+                        end) us (Some acc)
+  = Some (fold_left combine2 (map wrap us) acc).
+Proof.
+  revert acc. induction us as [|u us IH]; intros acc Hraw; cbn [fold_left map]; [reflexivity|].
+  cbn [forallb] in Hraw. apply andb_prop in Hraw. destruct Hraw as [Hu Hus].
+  assert (E : (if is_unwrapped_ok_u V u then wrap_val V u else as_outcome V u) = Some (wrap u)).
+  { destruct u as [v|[m l|m l|d l|d m l|m l]]; try reflexivity. discriminate Hu. }
+  rewrite E, combine2_gen_eq. apply IH, Hus.
+Qed.
+
+Theorem unwrapped_combine_gen_eq (V : Type) (us : list (uoutcome V)) :
+  forallb uraw_b us = true -> unwrapped_combine_gen V us = Some (unwrapped_combine us).
+Proof.
+  intros Hraw. unfold unwrapped_combine_gen, unwrapped_combine. destruct us as [|u us]; [reflexivity|].
+  cbn [nonempty_list negb]. rewrite (fold_opt_ugen_eq V (u :: us) _ Hraw). fold (reduce (map wrap (u :: us))).
+  destruct (reduce (map wrap (u :: us))) as [m l|m l|[v|vs] l|d m l|m l]; reflexivity.
+Qed.
